@@ -216,6 +216,14 @@ theorem struct_layout_canonical (kvs₁ kvs₂ : List (Slot N)) (proto : List (J
     (hvalid : ∀ kv ∈ kvs₁, kv.1.isNil = false ∧ kv.2.isNil = false) (hdist : DistinctKeys kvs₁) :
     structOf kvs₁ proto = structOf kvs₂ proto := structOf_perm proto hperm hvalid hdist
 
+/-- **PROVED, all inputs** — general form: whatever count is announced to `janet_struct_begin` (at least the number of
+    accepted pairs; a larger one makes `janet_struct_end` rebuild), whatever ignored pairs (nil key or nil value) are
+    interspersed, and in whatever order the accepted pairs (keys pairwise different) are put: same struct. -/
+theorem struct_layout_canonical_general (raw₁ raw₂ : List (Slot N)) (proto : List (JVal N)) (c₁ c₂ : Nat)
+    (hperm : (raw₁.filter validPair).Perm (raw₂.filter validPair)) (hdist : DistinctKeys (raw₁.filter validPair))
+    (hc₁ : (raw₁.filter validPair).length ≤ c₁) (hc₂ : (raw₂.filter validPair).length ≤ c₂) :
+    structOfCount c₁ raw₁ proto = structOfCount c₂ raw₂ proto := structOfCount_canonical proto hperm hdist hc₁ hc₂
+
 /-- … and therefore equal, with equal hashes, comparing as 0 -/
 theorem struct_by_content (kvs₁ kvs₂ : List (Slot N)) (proto : List (JVal N)) (hperm : kvs₁.Perm kvs₂)
     (hvalid : ∀ kv ∈ kvs₁, kv.1.isNil = false ∧ kv.2.isNil = false) (hdist : DistinctKeys kvs₁) :
